@@ -10,6 +10,9 @@ import os
 import sys
 
 
+CHECKERS = {}
+
+
 def perform(op):
     from harness import impl
     from harness.common import snapshot
@@ -24,12 +27,23 @@ def perform(op):
                          ["--meta-version", ver, "-o", op["out"], op["path"]])
                 raw = open(op["out"], "rb").read()
             else:
-                raw = impl.create(op["kind"], op["path"], op["out"], piece_length=op.get("pl"))
+                raw = impl.create(op["kind"], op["path"], op["out"], piece_length=op.get("pl"),
+                                  **op.get("opts", {}))
             return {"raw": raw.hex()}
         if kind == "edit":
             impl.edit(op["meta"], dict(op["req"]))
             return {"raw": open(op["meta"], "rb").read().hex()}
         if kind == "recheck":
+            if op.get("reuse"):
+                # a long-lived caller keeps its Checker object and asks again later; a fresh
+                # interpreter necessarily builds a new one
+                from harness.common import quiet
+                from torrentfile.recheck import Checker
+                key = (os.path.abspath(op["meta"]), os.path.abspath(op["content"]))
+                with quiet():
+                    if key not in CHECKERS:
+                        CHECKERS[key] = Checker(op["meta"], op["content"])
+                    return {"result": repr(CHECKERS[key].results())}
             return {"result": repr(impl.recheck_result(op["meta"], op["content"]))}
         if kind == "rebuild":
             count = impl.rebuild(op["metas"], op["contents"], op["dest"])
@@ -56,6 +70,11 @@ def apply_fs(op, base):
     elif k == "grow":
         with open(path, "ab") as fd:
             fd.write(blob_from_token(op["data"]).bytes())
+    elif k == "rewrite-same-size":
+        size = os.path.getsize(path)
+        from harness.common import Blob
+        with open(path, "wb") as fd:
+            fd.write(Blob.rand(1000 + op["seed"], size).bytes())
     elif k == "resize":
         os.makedirs(os.path.dirname(path), exist_ok=True)
         with open(path, "ab") as fd:
